@@ -9,7 +9,10 @@ import (
 	"fmt"
 	"io"
 	"math/rand"
+	"net/http"
 	"net/url"
+	"reflect"
+	"regexp"
 	"runtime"
 	"strings"
 	"sync"
@@ -18,8 +21,12 @@ import (
 	"github.com/sirupsen/logrus"
 	"github.com/zitadel/logging"
 
+	"github.com/zitadel/saml/pkg/provider"
+	"github.com/zitadel/saml/pkg/provider/serviceprovider"
 	"verif/harness/core"
 	"verif/harness/env"
+	"verif/harness/reply"
+	"verif/harness/sim"
 	"verif/harness/spsim"
 )
 
@@ -144,6 +151,7 @@ func c14Run(r *core.Run, idx int, rng *rand.Rand) {
 	e.W.NoLog = true
 	sp := stdSP(0)
 	mustRegister(e.W, sp, "appA")
+	c14GenerousNeighbour(r, rng)
 	stop := false
 	var results []c14Result
 	for _, v := range variants {
@@ -342,4 +350,79 @@ func init() {
 			return []core.Workload{{Name: "bombs", N: 1, Workers: 1, Fn: c14Run}}
 		},
 	})
+}
+
+var limitLikeName = regexp.MustCompile(`(?i)(max|limit|size|bytes|inflat|length)`)
+
+// maximiseLimits sets every integer field of the struct whose name sounds like a limit (Max…, …Limit, …Size, …Bytes)
+// to a very generous value and reports how many it found. Durations are left alone.
+func maximiseLimits(v reflect.Value) int {
+	for v.Kind() == reflect.Ptr {
+		if v.IsNil() {
+			return 0
+		}
+		v = v.Elem()
+	}
+	if v.Kind() != reflect.Struct {
+		return 0
+	}
+	n := 0
+	for i := 0; i < v.NumField(); i++ {
+		f, ft := v.Field(i), v.Type().Field(i)
+		if !f.CanSet() {
+			continue
+		}
+		switch f.Kind() {
+		case reflect.Int, reflect.Int32, reflect.Int64:
+			if ft.Type.Name() != "Duration" && limitLikeName.MatchString(ft.Name) {
+				f.SetInt(1 << 30)
+				n++
+			}
+		case reflect.Uint, reflect.Uint32, reflect.Uint64:
+			if limitLikeName.MatchString(ft.Name) {
+				f.SetUint(1 << 30)
+				n++
+			}
+		case reflect.Ptr, reflect.Struct:
+			n += maximiseLimits(f)
+		}
+	}
+	return n
+}
+
+// c14GenerousNeighbour: another identity provider lives in the same process, configured - like one of its service
+// providers - with the most generous limits its configuration offers (whatever integer fields named like a limit the
+// configuration structs of this tree have; none on the unchanged tree), and has served a request on each inflating
+// endpoint. The bound of the provider under test is its own.
+func c14GenerousNeighbour(r *core.Run, rng *rand.Rand) {
+	w := sim.NewWorld()
+	w.NoLog = true
+	idpc := &provider.IdentityProviderConfig{SignatureAlgorithm: spsim.AlgRSASHA256, MetadataIDPConfig: &provider.MetadataIDPConfig{}}
+	conf := &provider.Config{IDPConfig: idpc, MetadataConfig: &provider.MetadataConfig{}}
+	found := maximiseLimits(reflect.ValueOf(conf))
+	p, err := provider.NewProvider(w, provider.StaticIssuer("https://generous.idp.example/saml"), conf)
+	if err != nil {
+		r.Count("generous_neighbour_not_built", 1)
+		return
+	}
+	d := stdSP(2)
+	spConf := &serviceprovider.Config{Metadata: d.XML()}
+	found += maximiseLimits(reflect.ValueOf(spConf))
+	if spr, err := serviceprovider.NewServiceProvider("generous-app", spConf, w.LoginURL); err == nil {
+		w.PutSP(spr, "generous-app")
+	}
+	r.Count("limit_like_configuration_fields_maximised_on_the_neighbour", int64(found))
+	h := p.HttpHandler()
+	a := validAuthn(rng, d)
+	a.Destination = ""
+	l := conformantLogout(rng, d)
+	for _, rq := range []struct{ path, x string }{{env.PathSSO, a.XML(rng)}, {env.PathSLO, l.XML(rng)}} {
+		req, _ := http.NewRequest("GET", rq.path+"?SAMLRequest="+url.QueryEscape(spsim.DeflateB64(rq.x)), nil)
+		req.Host = "generous.idp.example"
+		func() {
+			defer func() { _ = recover() }()
+			h.ServeHTTP(reply.NewRecorder(), req)
+		}()
+	}
+	r.Count("generous_neighbour_requests", 2)
 }
